@@ -8,7 +8,7 @@ From Coq Require Import Sorting.Sorted.
 From DicomV Require Import Base.Endian Model.Vr Model.Header Model.Prim Model.Dataset Model.Writer Model.Reader
   Spec.Ps35 Proofs.HeaderP Proofs.PrimP Proofs.WriterP Proofs.ValidP Proofs.FlatP Proofs.ValueP Proofs.ReaderP
   Proofs.RoundTripP Proofs.TotalP Proofs.NestedP Proofs.ReadStepsP Proofs.ReadTreeP Proofs.BuildTreeP
-  Proofs.RoundTripTreeP.
+  Proofs.RoundTripTreeP Proofs.NestedGP Proofs.ReadTreeGP Proofs.BuildTreeGP Proofs.RoundTripGP.
 Open Scope N_scope.
 
 (** Full statement (kept visible): every well-formed data set, of any nesting,
@@ -89,9 +89,68 @@ Proof.
   destruct (write_tree_total c es W Rg) as [b E]. exists b. split; [exact E | exact (roundtrip_tree c d es b Hd R S E)].
 Qed.
 
-(** What remains of the full statement and is NOT proved: the NoChange strategy
-    with recorded (defined) lengths kept, and the charset-changed flag with
-    nesting; both are covered by the correspondence and the oracle only. *)
+(** Proved part 4 (the most general): BOTH strategies, DEFINED LENGTHS included.
+    [wl nochange l] is the length written for a recorded length [l]: [l] itself
+    under NoChange, "undefined" under SetUndefined. For nested data sets of any
+    depth (and encapsulated pixel data) in which every written length that is
+    defined equals the actual length of the content it announces ([readable_g];
+    automatically true under SetUndefined), whatever the writer produces is
+    read back as [norm_tree_g]: the same data set with the written lengths
+    recorded. The reader finds the ends of defined-length items and sequences
+    through [update_seq_delimiters] (position = base offset + length), cascades
+    of simultaneous ends and zero-length items/sequences included: the proof
+    (Proofs/ReadStepsGP.v, ReadPixGP.v, ReadTreeGP.v, BuildTreeGP.v) carries the
+    decoder position and the delimiter_check_pending flag through every step. *)
+Theorem C01_roundtrip_nesting : forall c d nochange es b,
+  delim_ok c d -> Forall (readable_g c d nochange) es -> StronglySorted tag_lt (map elem_tag es) ->
+  write_dataset c nochange false es = Ok b ->
+  read_dataset c d b = Ok (map (norm_tree_g c d nochange) es).
+Proof. exact roundtrip_tree_g. Qed.
+
+(** The writer for either strategy is the direct recursive encoding in terms of the written lengths. *)
+Theorem C01_write_nested_both : forall c nochange es,
+  Forall regular es -> write_dataset c nochange false es = enc_trees_g (elems_size es) c nochange es.
+Proof. exact write_dataset_nested_g. Qed.
+
+(** Non-vacuity for NoChange with defined lengths: a sequence of recorded length
+    18 with one item of recorded length 10 holding a US element, followed by a
+    sequence of recorded length 0 (Explicit VR LE). *)
+Definition C01_example_defined : list elem :=
+  [ ESeq (8, 4416) SQ 18 [(10, [EPrim (40, 16) US 2 (PU16 [512])])];
+    ESeq (64, 629) SQ 0 [] ].
+
+Example C01_defined_nonvacuous :
+  let d : dict_t := fun _ => None in
+  delim_ok ELE d /\ Forall (readable_g ELE d true) C01_example_defined
+  /\ StronglySorted tag_lt (map elem_tag C01_example_defined)
+  /\ exists b, write_dataset ELE true false C01_example_defined = Ok b
+               /\ read_dataset ELE d b = Ok (map (norm_tree_g ELE d true) C01_example_defined).
+Proof.
+  cbv zeta.
+  assert (R : Forall (readable_g ELE (fun _ => None) true) C01_example_defined).
+  { unfold C01_example_defined. constructor; [|constructor; [|constructor]].
+    - constructor; try (unfold wf_tag; cbn; lia); try discriminate.
+      + right. cbn. split; [lia | reflexivity].
+      + right. reflexivity.
+      + intros f body E. destruct f as [|f]; [discriminate E|]. right. vm_compute in E. inversion E. reflexivity.
+      + constructor; [|constructor]. cbn [fst snd]. split; [right; cbn; split; [lia | reflexivity]|].
+        split; [intros f body E; destruct f as [|f]; [discriminate E|]; right; vm_compute in E; inversion E; reflexivity|].
+        split; [|repeat constructor].
+        constructor; [|constructor]. constructor.
+        * unfold elem_ok, plain, wf_tag. cbn. repeat split; try reflexivity; try lia; try discriminate; intros; discriminate.
+        * unfold rt_ok. cbn. split; [discriminate | reflexivity].
+    - constructor; try (unfold wf_tag; cbn; lia); try discriminate.
+      + right. cbn. split; [lia | reflexivity].
+      + right. reflexivity.
+      + intros f body E. right. vm_compute in E. inversion E. reflexivity.
+      + constructor. }
+  split; [reflexivity|]. split; [exact R|]. split; [repeat constructor; unfold tag_lt, tag_ltb; reflexivity|].
+  eexists. split; [vm_compute; reflexivity|]. vm_compute. reflexivity.
+Qed.
+
+(** What remains of the full statement and is NOT proved: the charset-changed
+    flag on nested data sets (its tokens force undefined lengths; correspondence
+    and oracle only), and totality of writing under NoChange. *)
 
 (** The normalisation of values, made explicit for the two big classes. *)
 (** Binary words (US SS OW UL SL OL FL OF UV SV OV FD OD): exactly the numbers written. *)
@@ -194,6 +253,10 @@ Proof.
   - unfold C01_example_nested. repeat constructor; unfold tag_lt, tag_ltb; reflexivity.
 Qed.
 
+Check C01_roundtrip_nesting : forall c d nochange es b,
+  delim_ok c d -> Forall (readable_g c d nochange) es -> StronglySorted tag_lt (map elem_tag es) ->
+  write_dataset c nochange false es = Ok b ->
+  read_dataset c d b = Ok (map (norm_tree_g c d nochange) es).
 Check C01_roundtrip_undefined_nesting : forall c d es b,
   delim_ok c d -> Forall (readable c d) es -> StronglySorted tag_lt (map elem_tag es) ->
   write_dataset c false false es = Ok b ->
@@ -209,6 +272,8 @@ Print Assumptions C01_flat.
 Print Assumptions C01_roundtrip_undefined_nesting.
 Print Assumptions C01_write_total_nested.
 Print Assumptions C01_nested.
+Print Assumptions C01_roundtrip_nesting.
+Print Assumptions C01_write_nested_both.
 Print Assumptions C01_value_words.
 Print Assumptions C01_value_text.
 Print Assumptions C01_value_words_raw.
